@@ -16,6 +16,10 @@ static void run(int nkeys, const std::vector<std::string>& ops)
     auto t = c11::split(o, ':');
     std::string ret = "_";
     if (t[0] == "ins") { int& r = c.insert((int) c11::num(t[1]), (int) c11::num(t[2])); ret = "v" + std::to_string(r); }
+    else if (t[0] == "ins1") {                                     // insert(key): documented as touch(key)
+      try { int& r = c.insert((int) c11::num(t[1])); ret = "v" + std::to_string(r); }
+      catch (Dune::RangeError&) { ret = "RE"; }
+    }
     else if (t[0] == "touch") {
       try { int& r = c.touch((int) c11::num(t[1])); ret = "v" + std::to_string(r); }
       catch (Dune::RangeError&) { ret = "RE"; }
@@ -33,6 +37,26 @@ static void run(int nkeys, const std::vector<std::string>& ops)
       auto it = c.find(k);
       if (k) obs += "|";
       if (it == end) obs += "-"; else obs += std::to_string(it->first) + "=" + std::to_string(it->second);
+    }
+    // const access paths agree with the non-const ones
+    {
+      const Dune::lru<int, int>& cc = c;
+      std::string flags;
+      if (cc.size() != c.size()) flags += "!csize";
+      if (c.size() > 0 && cc.front() != c.front()) flags += "!cfront";
+#ifdef C11_LRU_CONST_BACK
+      if (c.size() > 0 && cc.back() != c.back()) flags += "!cback";
+#else
+      if (c.size() > 0 && cc.back(0) != c.back()) flags += "!cback";     // the snapshot's const back takes a stray int
+#endif
+#ifdef C11_LRU_CONST_FIND
+      auto cend = cc.find(-987654);
+      for (int k = 0; k < nkeys; ++k) {
+        auto a = c.find(k); auto b = cc.find(k);
+        if ((a == end) != (b == cend) || (a != end && (a->first != b->first || a->second != b->second))) flags += "!cfind";
+      }
+#endif
+      obs += flags;
     }
     c11::step_done(obs);
   }
